@@ -27,12 +27,16 @@ C10(e) == e.kind = "u10" => (IsStrRet(e.r0) => (IsStrRet(e.r1) /\ e.r1.v = e.r0.
 (* is allowed only if Unicode assigns it that decimal value (e.dec; -1 = none)                                         *)
 C11(e) == e.kind = "u11" => ((IsStrRet(e.r0) /\ IsStrRet(e.r1) /\ e.r1.v = e.r0.v /\ ~(IsStrRet(e.rdel) /\ e.rdel.v = e.r0.v))
                               => e.dec = e.d - 48)
+(* ... and, for the characters a module's own translation table mentions: whichever ASCII digit d (e.rd[d + 1] = the outcome    *)
+(* with d at that place) the character behaves like, d is its Unicode decimal value                                             *)
+C12(e) == e.kind = "u12" => \A d \in 0..9 :
+            (IsStrRet(e.r1) /\ IsStrRet(e.rd[d + 1]) /\ e.r1.v = e.rd[d + 1].v /\ ~(IsStrRet(e.rdel) /\ e.rdel.v = e.r1.v)) => e.dec = d
 (* the clean-up table the library declares (source -> ASCII target) is what clean() applies, alone and in context *)
 T1(e) == e.kind = "tab" => (e.alone = <<e.tgt>> /\ e.ctx = <<49, e.tgt, 65>> /\ e.twice = <<e.tgt, e.tgt>>)
 Done(e) == e.kind = "end" => next = 1114112
-ClauseNames == <<"Cover", "U1", "U2", "U3", "U4", "U5", "U7", "U8", "U9", "U10", "U11", "T1", "Done">>
+ClauseNames == <<"Cover", "U1", "U2", "U3", "U4", "U5", "U7", "U8", "U9", "U10", "U11", "U12", "T1", "Done">>
 Clauses(e) == [Cover |-> Cover(e), U1 |-> C1(e), U2 |-> C2(e), U3 |-> C3(e), U4 |-> C4(e), U5 |-> C5(e),
-               U7 |-> C7(e), U8 |-> C8(e), U9 |-> C9(e), U10 |-> C10(e), U11 |-> C11(e), T1 |-> T1(e), Done |-> Done(e)]
+               U7 |-> C7(e), U8 |-> C8(e), U9 |-> C9(e), U10 |-> C10(e), U11 |-> C11(e), U12 |-> C12(e), T1 |-> T1(e), Done |-> Done(e)]
 Failing(e) == LET c == Clauses(e) IN SelectSeq(ClauseNames, LAMBDA n : ~c[n])
 
 Init == l = 1 /\ nrej = 0 /\ next = 0 /\ map = <<>> /\ nonfixed = {}
